@@ -368,6 +368,7 @@ func (m *machine) deliverOne(why string) bool {
 	m.sched.delivery = append(m.sched.delivery, g.tag)
 	m.sched.idle = 0
 	m.switchTo(g)
+	m.drain() // whatever the delivered goroutine unblocked (mutex hand-over) runs now
 	return true
 }
 
@@ -589,6 +590,20 @@ func hYield(m *machine, fr *frame, args []value) value {
 	return nil
 }
 
+// vYieldAgain(tag): a further scheduling point inside a running task (e.g. in
+// the middle of a Write): the goroutine parks again and is delivered like a
+// running task.
+func hYieldAgain(m *machine, fr *frame, args []value) value {
+	if m.sched == nil || m.cur == m.sched.main {
+		return nil
+	}
+	g := m.cur
+	g.yielded = true
+	g.tag = asInt64(args[0])
+	m.parkCur("yield")
+	return nil
+}
+
 func hEvent(m *machine, fr *frame, args []value) value {
 	if os.Getenv("SYMGO_EVENTS") != "" {
 		fmt.Fprintf(os.Stderr, "EVENT %s\n", toString(args[0]))
@@ -694,7 +709,10 @@ func iBufferWriteTo(m *machine, fr *frame, args []value) value {
 	if s, ok := fromTerm(text).(string); ok && s == "" {
 		return tuple{int64(0), iface{}}
 	}
-	m.writeTo(fr, args[1], text)
+	r := m.writeTo(fr, args[1], text)
+	if t, ok := r.(tuple); ok && len(t) == 2 {
+		return tuple{t[0], t[1]} // (n, err) of the writer's Write
+	}
 	return tuple{fromTerm(mkLen(text)), iface{}}
 }
 
